@@ -30,7 +30,86 @@ def drv_cfg(p):
             "sender_count": p["sender_count"], "buf_cap": p["buf_cap"]}
 
 
-def run_family(pid, tier, seed, families, invariants, live=None, assumptions=(), extra=None):
+def one_family(sc, verdict, fam, thorough, seed, invariants, stats, cmds, samples):
+    """model check + lock-step replay + trace validation of one configuration family; returns (states, transitions)"""
+    states = trans = 0
+    p = dict(fam["params"])
+    # ---- (C) exhaustive model check of this configuration
+    pm = dict(p, maxlen=fam["mc_len"][1 if thorough else 0])
+    write_cfg(sc, "mc_%s.cfg" % fam["name"], pm, "Spec", invariants)
+    r = vlib.tlc(sc, "IncrSync", "mc_%s.cfg" % fam["name"], workers=16, timeout=3000)
+    if r.rc != 0:
+        raise Infra("IncrSync model check '%s' failed (rc=%s, %s): the model no longer proves the property\n%s" % (
+            fam["name"], r.rc, r.violated, r.out[-2500:]))
+    states += r.distinct
+    trans += r.generated
+    cmds.append(r.cmd)
+    log("[C] IncrSync/%s MaxLen=%d: %d generated, %d distinct, %.1fs" % (fam["name"], pm["maxlen"], r.generated, r.distinct, r.wall))
+    # ---- (A) simulated behaviours replayed lock-step
+    write_cfg(sc, "gen_%s.cfg" % fam["name"], p, "GenSpec")
+    n = fam["paths_thorough"] if thorough else fam["paths_quick"]
+    rs, paths = vlib.sim_paths(sc, "IncrSync", "gen_%s.cfg" % fam["name"], n, fam.get("depth", 60), seed, fields={"last"})
+    cmds.append(rs.cmd)
+    steps = [[s["last"] for s in pth] for pth in paths]
+    trace = sc.path("trace-%s.ndjson" % fam["name"])
+    inp = {"seed": seed, "cfg": drv_cfg(p), "paths": steps, "trace": trace}
+    rc, out, err = vlib.run_vdrv(["incr"], stdin=json.dumps(inp), timeout=3000)
+    if rc != 0:
+        raise Infra("vdrv incr failed rc=%s: %s" % (rc, err[-2000:]))
+    res = json.loads(out)
+    stats["lockstep_paths"] += res["paths"]
+    stats["steps"] += res["steps"]
+    stats["drifts"] += res["drifts"]
+    for m in res["mismatches"] or []:
+        if m["kind"] == "drift":
+            log("DRIFT (model detail, not a verdict) [%s]: %s" % (fam["name"], m["detail"]))
+        elif m["kind"] == "harness":
+            raise Infra("incr harness: %s" % m["detail"])
+        else:
+            verdict.violation({"kind": "replay-" + m["kind"], "family": fam["name"]}, m["detail"],
+                              {"family": "incr", "cfg": drv_cfg(p), "path": steps[m["case"]], "step": m["step"], "seed": seed})
+    for lk in res.get("leaks") or []:
+        log("note: a configured password appeared in a log line (C19): %s" % lk[:200])
+    # ---- (B) free-running with the real 500 ms ticker
+    if fam.get("free"):
+        nfree = fam["free"][1 if thorough else 0]
+        tracef = sc.path("trace-free-%s.ndjson" % fam["name"])
+        inp = {"seed": seed + 17, "cfg": drv_cfg(p), "paths": [[s for s in pth if s["a"] == "SrcEmit"] for pth in steps[:nfree]],
+               "trace": tracef, "free": True}
+        rc, out, err = vlib.run_vdrv(["incr"], stdin=json.dumps(inp), timeout=3000)
+        if rc != 0:
+            raise Infra("vdrv incr (free) failed rc=%s: %s" % (rc, err[-2000:]))
+        stats["free_runs"] += json.loads(out)["paths"]
+        with open(trace, "a") as f:
+            f.write(open(tracef).read())
+    # ---- TLC judges every recorded snapshot with the contract
+    rows = vlib.read_ndjson(trace)
+    shutil.copyfile(trace, sc.path("trace.ndjson"))
+    rt = vlib.tlc(sc, "IncrTrace", "IncrTrace.cfg", workers=1, timeout=3000)
+    if rt.rc != 0:
+        raise Infra("TLC failed on the incr trace (rc=%s):\n%s" % (rt.rc, rt.out[-2000:]))
+    if rt.depth - 1 != len(rows):
+        raise Infra("TLC judged %d of %d events" % (rt.depth - 1, len(rows)))
+    states += rt.distinct
+    trans += rt.generated
+    stats["snapshots"] += sum(1 for x in rows if x["e"] == "snap")
+    stats["crash_restarts"] += sum(1 for x in rows if x["e"] == "restart")
+    for ln in [int(x) for x in re.findall(r'<<"REJECT", (\d+)>>', rt.out)]:
+        ev = rows[ln - 1]
+        stream = [x["item"] for x in rows[:ln] if x["e"] == "emit" and x["case"] == ev["case"]]
+        sig = {"kind": "snapshot", "family": fam["name"], "after": ev["a"], "markers": ev["markers"] > 0, "errors": ev["errors"] > 0,
+               "bad_offset": -2 in ev["ckpt"]}
+        verdict.violation(sig, "after step %s of case %d the target state violates the contract: applied=%s ckpt(item index per db)=%s rid=%s "
+                          "markers=%d errors=%d quiet=%s notes=%s | source stream so far: %s | config %s" % (
+                              ev["a"], ev["case"], ev["applied"], ev["ckpt"], ev["rid"], ev["markers"], ev["errors"], ev["quiet"],
+                              ev.get("notes"), [(i["t"], i["d"], i["id"]) for i in stream], drv_cfg(p)),
+                          {"family": "incr", "cfg": drv_cfg(p), "path": steps[ev["case"]] if ev["case"] < len(steps) else None, "seed": seed})
+    if len(samples) < 3 and steps:
+        samples.append({"family": fam["name"], "behaviour": steps[0][:14], "last_snapshot": [x for x in rows if x["e"] == "snap"][-1]})
+    return states, trans
+
+
+def run_family(pid, tier, seed, families, invariants, live=None, assumptions=(), extra=None, level=None):
     """families: list of dict(name, params, mc_len (MaxLen for exhaustive check), paths_quick, paths_thorough, depth)"""
     t0 = time.time()
     verdict = vlib.Verdict(pid)
@@ -45,79 +124,9 @@ def run_family(pid, tier, seed, families, invariants, live=None, assumptions=(),
             if len(verdict.violations) > 60:
                 log("[stop] %d violations already: the remaining configuration families are skipped" % len(verdict.violations))
                 break
-            p = dict(fam["params"])
-            # ---- (C) exhaustive model check of this configuration
-            pm = dict(p, maxlen=fam["mc_len"][1 if thorough else 0])
-            write_cfg(sc, "mc_%s.cfg" % fam["name"], pm, "Spec", invariants)
-            r = vlib.tlc(sc, "IncrSync", "mc_%s.cfg" % fam["name"], workers=16, timeout=3000)
-            if r.rc != 0:
-                raise Infra("IncrSync model check '%s' failed (rc=%s, %s): the model no longer proves the property\n%s" % (
-                    fam["name"], r.rc, r.violated, r.out[-2500:]))
-            states += r.distinct
-            trans += r.generated
-            cmds.append(r.cmd)
-            log("[C] IncrSync/%s MaxLen=%d: %d generated, %d distinct, %.1fs" % (fam["name"], pm["maxlen"], r.generated, r.distinct, r.wall))
-            # ---- (A) simulated behaviours replayed lock-step
-            write_cfg(sc, "gen_%s.cfg" % fam["name"], p, "GenSpec")
-            n = fam["paths_thorough"] if thorough else fam["paths_quick"]
-            rs, paths = vlib.sim_paths(sc, "IncrSync", "gen_%s.cfg" % fam["name"], n, fam.get("depth", 60), seed, fields={"last"})
-            cmds.append(rs.cmd)
-            steps = [[s["last"] for s in pth] for pth in paths]
-            trace = sc.path("trace-%s.ndjson" % fam["name"])
-            inp = {"seed": seed, "cfg": drv_cfg(p), "paths": steps, "trace": trace}
-            rc, out, err = vlib.run_vdrv(["incr"], stdin=json.dumps(inp), timeout=3000)
-            if rc != 0:
-                raise Infra("vdrv incr failed rc=%s: %s" % (rc, err[-2000:]))
-            res = json.loads(out)
-            stats["lockstep_paths"] += res["paths"]
-            stats["steps"] += res["steps"]
-            stats["drifts"] += res["drifts"]
-            for m in res["mismatches"] or []:
-                if m["kind"] == "drift":
-                    log("DRIFT (model detail, not a verdict) [%s]: %s" % (fam["name"], m["detail"]))
-                elif m["kind"] == "harness":
-                    raise Infra("incr harness: %s" % m["detail"])
-                else:
-                    verdict.violation({"kind": "replay-" + m["kind"], "family": fam["name"]}, m["detail"],
-                                      {"family": "incr", "cfg": drv_cfg(p), "path": steps[m["case"]], "step": m["step"], "seed": seed})
-            for lk in res.get("leaks") or []:
-                log("note: a configured password appeared in a log line (C19): %s" % lk[:200])
-            # ---- (B) free-running with the real 500 ms ticker
-            if fam.get("free"):
-                nfree = fam["free"][1 if thorough else 0]
-                tracef = sc.path("trace-free-%s.ndjson" % fam["name"])
-                inp = {"seed": seed + 17, "cfg": drv_cfg(p), "paths": [[s for s in pth if s["a"] == "SrcEmit"] for pth in steps[:nfree]],
-                       "trace": tracef, "free": True}
-                rc, out, err = vlib.run_vdrv(["incr"], stdin=json.dumps(inp), timeout=3000)
-                if rc != 0:
-                    raise Infra("vdrv incr (free) failed rc=%s: %s" % (rc, err[-2000:]))
-                stats["free_runs"] += json.loads(out)["paths"]
-                with open(trace, "a") as f:
-                    f.write(open(tracef).read())
-            # ---- TLC judges every recorded snapshot with the contract
-            rows = vlib.read_ndjson(trace)
-            shutil.copyfile(trace, sc.path("trace.ndjson"))
-            rt = vlib.tlc(sc, "IncrTrace", "IncrTrace.cfg", workers=1, timeout=3000)
-            if rt.rc != 0:
-                raise Infra("TLC failed on the incr trace (rc=%s):\n%s" % (rt.rc, rt.out[-2000:]))
-            if rt.depth - 1 != len(rows):
-                raise Infra("TLC judged %d of %d events" % (rt.depth - 1, len(rows)))
-            states += rt.distinct
-            trans += rt.generated
-            stats["snapshots"] += sum(1 for x in rows if x["e"] == "snap")
-            stats["crash_restarts"] += sum(1 for x in rows if x["e"] == "restart")
-            for ln in [int(x) for x in re.findall(r'<<"REJECT", (\d+)>>', rt.out)]:
-                ev = rows[ln - 1]
-                stream = [x["item"] for x in rows[:ln] if x["e"] == "emit" and x["case"] == ev["case"]]
-                sig = {"kind": "snapshot", "family": fam["name"], "after": ev["a"], "markers": ev["markers"] > 0, "errors": ev["errors"] > 0,
-                       "bad_offset": -2 in ev["ckpt"]}
-                verdict.violation(sig, "after step %s of case %d the target state violates the contract: applied=%s ckpt(item index per db)=%s rid=%s "
-                                  "markers=%d errors=%d quiet=%s notes=%s | source stream so far: %s | config %s" % (
-                                      ev["a"], ev["case"], ev["applied"], ev["ckpt"], ev["rid"], ev["markers"], ev["errors"], ev["quiet"],
-                                      ev.get("notes"), [(i["t"], i["d"], i["id"]) for i in stream], drv_cfg(p)),
-                                  {"family": "incr", "cfg": drv_cfg(p), "path": steps[ev["case"]] if ev["case"] < len(steps) else None, "seed": seed})
-            if len(samples) < 3 and steps:
-                samples.append({"family": fam["name"], "behaviour": steps[0][:14], "last_snapshot": [x for x in rows if x["e"] == "snap"][-1]})
+            fs, ft = one_family(sc, verdict, fam, thorough, seed, invariants, stats, cmds, samples)
+            states += fs
+            trans += ft
         if extra:
             # a further part of the same check (same scratch, same verdict): returns (states, transitions, stats, cmds)
             es, et, estats, ecmds = extra(sc, verdict, thorough, seed)
@@ -132,6 +141,6 @@ def run_family(pid, tier, seed, families, invariants, live=None, assumptions=(),
                    "snapshot of the real target judged by TLC against IncrContract; non-trivial = behaviours (each has >= 1 forwarded command)",
            "exhaustive": False, "checker_cmd": "; ".join(cmds[:6])}
     cov.update(stats)
-    vlib.write_evidence(pid, tier, seed, "model_checking" if pid == "C03" else "fault_enumeration", cov, time.time() - t0,
+    vlib.write_evidence(pid, tier, seed, level or ("model_checking" if pid == "C03" else "fault_enumeration"), cov, time.time() - t0,
                         len(verdict.violations), list(assumptions))
     return rc
